@@ -1,8 +1,10 @@
 import GeodeVerif.GenR.Convert
 import GeodeVerif.Lemmas.PyRSimp
+import GeodeVerif.Spec.Krueger
 import Mathlib.Analysis.SpecialFunctions.Arsinh
 import Mathlib.Analysis.SpecialFunctions.Artanh
 import Mathlib.Analysis.SpecialFunctions.Trigonometric.Arctan
+import Mathlib.Analysis.Complex.Trigonometric
 import Mathlib.Tactic.FieldSimp
 import Mathlib.Tactic.Ring
 import Mathlib.Tactic.Linarith
@@ -190,6 +192,41 @@ theorem rect_radius_init (a invf : ℝ) :
   intro E
   exact rect_radius_formula E
 
+/-- C01.2 `rect_radius E = a/(1+n) · Spec.Krueger.rectFactor n`, `n` recomputed from `inversef`,
+for an arbitrary `Ellipsoid` value. -/
+theorem rect_radius_eq (E : Ellipsoid) :
+    let n := (1 / E.inversef) / (2 - 1 / E.inversef)
+    rect_radius E = E.semimaj / (1 + n) * Spec.Krueger.rectFactor n := by
+  intro n
+  unfold rect_radius Spec.Krueger.rectFactor
+  simp only [PyR.pown, PyR.pyfloat]
+  ring
+
+/-- … hence for a constructed ellipsoid `A = a/(1+n)·rectFactor n` with `n = E.n`. -/
+theorem rect_radius_eq_init (a invf : ℝ) :
+    let E := Ellipsoid.init a invf
+    rect_radius E = a / (1 + E.n) * Spec.Krueger.rectFactor E.n := by
+  intro E
+  exact rect_radius_eq E
+
+/-! ## 3. Series coefficients -/
+
+/-- C01.3 every Horner polynomial returned by `alpha_coeff` equals, as a polynomial in `n`, the
+independently derived Krüger–Karney coefficient `Spec.Krueger.alpha k`, `k = 1..8`; for every
+`Ellipsoid` value (arbitrary `n` field). -/
+theorem alpha_eq_ref (ell : Ellipsoid) :
+    (alpha_coeff ell).1 = Spec.Krueger.alpha 1 ell.n ∧
+    (alpha_coeff ell).2.1 = Spec.Krueger.alpha 2 ell.n ∧
+    (alpha_coeff ell).2.2.1 = Spec.Krueger.alpha 3 ell.n ∧
+    (alpha_coeff ell).2.2.2.1 = Spec.Krueger.alpha 4 ell.n ∧
+    (alpha_coeff ell).2.2.2.2.1 = Spec.Krueger.alpha 5 ell.n ∧
+    (alpha_coeff ell).2.2.2.2.2.1 = Spec.Krueger.alpha 6 ell.n ∧
+    (alpha_coeff ell).2.2.2.2.2.2.1 = Spec.Krueger.alpha 7 ell.n ∧
+    (alpha_coeff ell).2.2.2.2.2.2.2 = Spec.Krueger.alpha 8 ell.n := by
+  unfold alpha_coeff Spec.Krueger.alpha
+  simp only [PyR.pown]
+  refine ⟨?_, ?_, ?_, ?_, ?_, ?_, ?_, ?_⟩ <;> ring
+
 /-! ## 4. Conformal latitude -/
 
 theorem dec_5_1 : PyR.dec 5 1 = 1 / 2 := by norm_num [PyR.dec]
@@ -227,6 +264,27 @@ theorem conformal_lat_def (e φ : ℝ) (he0 : 0 ≤ e) (he1 : e < 1)
 
 example : ∃ e φ : ℝ, 0 ≤ e ∧ e < 1 ∧ -(Real.pi / 2) < φ ∧ φ < Real.pi / 2 :=
   ⟨0, 0, le_refl _, by norm_num, by linarith [Real.pi_pos], by linarith [Real.pi_pos]⟩
+
+/-- the hypotheses of `conformal_lat_def` hold on `geo2grid`'s accepted domain: latitudes in
+`[−80, 84]` degrees are strictly inside `(−π/2, π/2)` … -/
+theorem radians_lat_mem (lat : ℝ) (h1 : -80 ≤ lat) (h2 : lat ≤ 84) :
+    -(Real.pi / 2) < PyR.radians lat ∧ PyR.radians lat < Real.pi / 2 := by
+  have hpi := Real.pi_pos
+  show -(Real.pi / 2) < lat * (Real.pi / 180) ∧ lat * (Real.pi / 180) < Real.pi / 2
+  constructor <;> nlinarith
+
+/-- … and every ellipsoid constructed with `1/f > 1` has `0 ≤ e < 1`. -/
+theorem ecc1_range (a invf : ℝ) (h : 1 < invf) :
+    0 ≤ (Ellipsoid.init a invf).ecc1 ∧ (Ellipsoid.init a invf).ecc1 < 1 := by
+  show 0 ≤ Real.sqrt (1 / invf * (2 - 1 / invf)) ∧ Real.sqrt (1 / invf * (2 - 1 / invf)) < 1
+  refine ⟨Real.sqrt_nonneg _, ?_⟩
+  rw [Real.sqrt_lt' one_pos]
+  have h0 : 0 < invf := by linarith
+  have hf : 1 / invf < 1 := by rw [div_lt_one h0]; exact h
+  have : 1 / invf * (2 - 1 / invf) = 1 - (1 - 1 / invf) ^ 2 := by ring
+  rw [this]
+  have : 0 < (1 - 1 / invf) ^ 2 := by positivity
+  linarith
 
 /-- `χ = confLat e φ` has `tan χ` equal to the code's expression (total). -/
 theorem tan_confLat (e φ : ℝ) : Real.tan (confLat e φ) = tanConfLat e φ := Real.tan_arctan _
@@ -326,6 +384,37 @@ theorem series_symmetry (a : Coef) (ξ' η' : ℝ) :
   simp only [mul_neg, Real.sin_neg, Real.cos_neg, Real.sinh_neg, Real.cosh_neg, mul_zero,
     Real.sin_zero, Real.sinh_zero, zero_mul, add_zero]
   refine ⟨?_, trivial, trivial, ?_, trivial, trivial⟩ <;> ring
+
+/-! ## 6. The series step is a complex sine series -/
+
+/-- C01.6 `ξ + iη = ζ′ + Σ_{r=1}^{8} α_{2r} sin(2r ζ′)` with `ζ′ = ξ′ + iη′`: the series step is an
+analytic function of `ζ′`, whatever the coefficients. -/
+theorem series_is_complex_sine (a : Coef) (ξ' η' : ℝ) :
+    let ζ : ℂ := (ξ' : ℂ) + (η' : ℂ) * Complex.I
+    ((xiSeries a ξ' η' : ℝ) : ℂ) + ((etaSeries a ξ' η' : ℝ) : ℂ) * Complex.I =
+      ζ + (a.1 : ℂ) * Complex.sin (2 * 1 * ζ) + (a.2.1 : ℂ) * Complex.sin (2 * 2 * ζ)
+        + (a.2.2.1 : ℂ) * Complex.sin (2 * 3 * ζ) + (a.2.2.2.1 : ℂ) * Complex.sin (2 * 4 * ζ)
+        + (a.2.2.2.2.1 : ℂ) * Complex.sin (2 * 5 * ζ) + (a.2.2.2.2.2.1 : ℂ) * Complex.sin (2 * 6 * ζ)
+        + (a.2.2.2.2.2.2.1 : ℂ) * Complex.sin (2 * 7 * ζ)
+        + (a.2.2.2.2.2.2.2 : ℂ) * Complex.sin (2 * 8 * ζ) := by
+  intro ζ
+  have key : ∀ k : ℝ, Complex.sin ((k : ℂ) * ζ) =
+      ((Real.sin (k * ξ') * Real.cosh (k * η') : ℝ) : ℂ)
+        + ((Real.cos (k * ξ') * Real.sinh (k * η') : ℝ) : ℂ) * Complex.I := by
+    intro k
+    have : (k : ℂ) * ζ = ((k * ξ' : ℝ) : ℂ) + ((k * η' : ℝ) : ℂ) * Complex.I := by
+      simp only [ζ]; push_cast; ring
+    rw [this, Complex.sin_add_mul_I]
+    push_cast
+    ring
+  have k1 := key (2 * 1); have k2 := key (2 * 2); have k3 := key (2 * 3); have k4 := key (2 * 4)
+  have k5 := key (2 * 5); have k6 := key (2 * 6); have k7 := key (2 * 7); have k8 := key (2 * 8)
+  push_cast at k1 k2 k3 k4 k5 k6 k7 k8
+  rw [k1, k2, k3, k4, k5, k6, k7, k8]
+  unfold xiSeries etaSeries
+  simp only [ζ]
+  push_cast
+  ring
 
 /-- C01.7 `geo2grid_symmetry`: the TM coordinates before scale/false origin (`x = A·η`, `y = A·ξ`
 as functions of latitude `φ` and longitude difference `ω`, exactly the composition the code
@@ -461,6 +550,80 @@ theorem utm_zone_at_180 : autoZoneUtm utm 180 = 61 := by
   rw [autoZoneUtm_utm, trunc_of_nonneg (by norm_num)]
   rw [show ((180 : ℝ) + 186) / 6 = ((61 : ℤ) : ℝ) by norm_num, Int.floor_intCast]
   norm_num
+
+/-- the ISG central-meridian formula uses the zone's leading two digits and last digit; on a zone
+`10·a + b` with integer `a` and digit `0 ≤ b ≤ 9` these are `a` and `b`. -/
+theorem isg_digits (a : ℤ) (b : ℝ) (hb0 : 0 ≤ b) (hb9 : b < 10) :
+    PyR.intStrPrefix2 (PyR.intConcat2 a b) = a ∧ PyR.intStrDigit2 (PyR.intConcat2 a b) = b := by
+  have hfl : ⌊((a : ℝ) * 10 + b) / 10⌋ = a := by
+    rw [Int.floor_eq_iff]
+    constructor
+    · rw [le_div_iff₀ (by norm_num)]; linarith
+    · rw [div_lt_iff₀ (by norm_num)]; linarith
+  unfold PyR.intStrPrefix2 PyR.intStrDigit2 PyR.intConcat2
+  rw [hfl]
+  exact ⟨rfl, by ring⟩
+
+/-- C01.9 companion `isg_auto_zone`: for an ISG-type projection (zone width `w > 0`, three sub-zones
+per AMG zone) and `lon ≥ c₀ − 4.5w`, the automatic zone is `10·amg + sub` with
+`amg = ⌊(lon − (c₀ − 4.5w))/(3w)⌋`, `sub ∈ {1,2,3}`, and `−w/2 ≤ lon − cm < w/2`
+(for the shipped `isg`, `w = 2`: `|lon − cm| ≤ 1`). -/
+theorem isg_auto_zone (prj : Projection) (lon : ℝ) (hp : prj.pyid = isg.pyid)
+    (hw : 0 < prj.zonewidth) (hlo : prj.initialcm - 9 / 2 * prj.zonewidth ≤ lon) :
+    let v := (lon - (prj.initialcm - 9 / 2 * prj.zonewidth)) / (prj.zonewidth * 3)
+    let z := autoZoneIsg prj lon
+    ∃ sub : ℤ, (sub = 1 ∨ sub = 2 ∨ sub = 3) ∧ z = (⌊v⌋ : ℝ) * 10 + sub ∧
+      -(prj.zonewidth / 2) ≤ lon - cmOf prj z ∧ lon - cmOf prj z < prj.zonewidth / 2 ∧
+      |lon - cmOf prj z| ≤ prj.zonewidth / 2 := by
+  intro v z
+  set w := prj.zonewidth with hwdef
+  set c₀ := prj.initialcm with hcdef
+  have hv0 : 0 ≤ v := div_nonneg (by linarith) (by positivity)
+  have h1 : (⌊v⌋ : ℝ) ≤ v := Int.floor_le v
+  have h2 : v < (⌊v⌋ : ℝ) + 1 := Int.lt_floor_add_one v
+  set fr := (v - (⌊v⌋ : ℝ)) * 3 + 1 with hfr
+  have hfr1 : 1 ≤ fr := by rw [hfr]; linarith
+  have hfr4 : fr < 4 := by rw [hfr]; linarith
+  have g1 : (⌊fr⌋ : ℝ) ≤ fr := Int.floor_le fr
+  have g2 : fr < (⌊fr⌋ : ℝ) + 1 := Int.lt_floor_add_one fr
+  have hs1 : (1 : ℤ) ≤ ⌊fr⌋ := Int.le_floor.mpr (by push_cast; exact hfr1)
+  have hs3 : ⌊fr⌋ < (4 : ℤ) := Int.floor_lt.mpr (by push_cast; exact hfr4)
+  have hz : z = (⌊v⌋ : ℝ) * 10 + (⌊fr⌋ : ℝ) := by
+    show autoZoneIsg prj lon = _
+    unfold autoZoneIsg
+    simp only [dec_45_1]
+    rw [trunc_of_nonneg hv0, trunc_of_nonneg (by linarith : (0 : ℝ) ≤ fr)]
+    rfl
+  have hs1r : (1 : ℝ) ≤ (⌊fr⌋ : ℝ) := by exact_mod_cast hs1
+  have hs3r : (⌊fr⌋ : ℝ) ≤ 3 := by
+    have : ⌊fr⌋ ≤ (3 : ℤ) := by omega
+    exact_mod_cast this
+  obtain ⟨hd1, hd2⟩ := isg_digits ⌊v⌋ (⌊fr⌋ : ℝ) (by linarith) (by linarith)
+  have hcm : cmOf prj z = ((((⌊v⌋ : ℝ) - 1) * w) * 3 + c₀) + ((⌊fr⌋ : ℝ) - 2) * w := by
+    unfold cmOf
+    rw [if_pos hp, hz]
+    unfold PyR.intConcat2 at hd1 hd2
+    rw [hd1, hd2]
+  have hlon : lon = v * (w * 3) + c₀ - 9 / 2 * w := by
+    show lon = (lon - (c₀ - 9 / 2 * w)) / (w * 3) * (w * 3) + c₀ - 9 / 2 * w
+    field_simp; ring
+  have e : lon - cmOf prj z = (fr - (⌊fr⌋ : ℝ)) * w - w / 2 := by
+    rw [hcm, hfr]; rw [hlon]; ring
+  have a1 : 0 ≤ (fr - (⌊fr⌋ : ℝ)) * w := mul_nonneg (by linarith) hw.le
+  have a2 : (fr - (⌊fr⌋ : ℝ)) * w < 1 * w := mul_lt_mul_of_pos_right (by linarith) hw
+  refine ⟨⌊fr⌋, by omega, hz, by rw [e]; linarith, by rw [e]; linarith, ?_⟩
+  rw [abs_le, e]; constructor <;> linarith
+
+example : isg.pyid = isg.pyid ∧ 0 < isg.zonewidth ∧
+    isg.initialcm - 9 / 2 * isg.zonewidth ≤ (141 : ℝ) := by
+  refine ⟨rfl, ?_, ?_⟩
+  · show (0 : ℝ) < 2; norm_num
+  · show (-(177 : ℝ)) - 9 / 2 * 2 ≤ 141; norm_num
+
+/-- when `zone = 0` is passed with the ISG projection, that automatic zone is used and returned -/
+theorem zoneOf_auto_isg (prj : Projection) (zone lon : ℝ) (hp : prj.pyid = isg.pyid)
+    (hz : PyR.trunc zone = 0) : zoneOf prj zone lon = autoZoneIsg prj lon := by
+  unfold zoneOf; rw [if_pos hz, if_pos hp]
 
 /-! ## 10. Validation -/
 
@@ -637,3 +800,16 @@ theorem psf_call_site (lat lon zone : ℝ) (ell : Ellipsoid) (prj : Projection)
     rw [PyR.degrees_radians]
 
 end GeodeVerif.C01
+
+#print axioms GeodeVerif.C01.geo2grid_unfold
+#print axioms GeodeVerif.C01.alpha_eq_ref
+#print axioms GeodeVerif.C01.rect_radius_eq
+#print axioms GeodeVerif.C01.conformal_lat_def
+#print axioms GeodeVerif.C01.gauss_schreiber_def
+#print axioms GeodeVerif.C01.series_is_complex_sine
+#print axioms GeodeVerif.C01.geo2grid_symmetry
+#print axioms GeodeVerif.C01.false_origin_and_hemisphere
+#print axioms GeodeVerif.C01.utm_auto_zone
+#print axioms GeodeVerif.C01.isg_auto_zone
+#print axioms GeodeVerif.C01.validation_logic
+#print axioms GeodeVerif.C01.psf_call_site
